@@ -29,7 +29,7 @@ func init() { sim.Register(c11{}) }
 func (c11) ID() string    { return "C11" }
 func (c11) Level() string { return "fault_enumeration" }
 func (c11) Rule() string {
-	return "seeded training histories of FC -> {none, Relu, LeakyRelu, Sigmoid, Tanh, Softmax(dim 0/1/nil)} -> {MSE, BCE, CE} with random widths, batch sizes, learning rates (incl. default, 0, negative), initial weights (harness values incl. exact zeros, or library defaults under a seeded RNG), 1-3 cycled mini-batches, 1-12 steps. Protocol faults step-omission (reset of W / B / both, back-propagation), step-duplication (second Update), reorder (B before W), invalid-call (Update(nil), pointer to nil tensor): for every generated history each fault kind is injected at every step (enumerated). Reference: an independent scalar reverse-mode tape evaluating loss and gradient at the implementation's current weights at every step; under a fault the next Update of every weight must fail and replace nothing, and the first step after the missing reset must match the reference again. Non-trivial: >=2 consecutive successful steps and >=1 fault fired and recovered from. Distinct: hash of (architecture, sizes, fault kind/position sequence)."
+	return "seeded training histories of FC -> {none, Relu, LeakyRelu, Sigmoid, Tanh, Softmax(dim 0/1/nil)} -> {MSE, BCE, CE} with random widths, batch sizes, learning rates (incl. default, 0, negative), initial weights (harness values incl. exact zeros, or library defaults under a seeded RNG), 1-3 cycled mini-batches, 1-12 steps. Protocol faults step-omission (reset of W / B / both, back-propagation), step-duplication (second Update), reorder (B before W), invalid-call (Update(nil), pointer to nil tensor): for every generated history each fault kind is injected at every step (enumerated). Reference: an independent scalar reverse-mode tape evaluating loss and gradient at the implementation's current weights at every step; under a fault the next Update of every weight must fail and replace nothing, and the first step after the missing reset must match the reference again. Non-trivial: >=2 consecutive successful steps and >=1 fault fired and recovered from. Distinct: hash of (architecture, sizes, fault kind/position sequence). Also: tied parameters (one tensor in both slots), restore of the initial tensor objects, forward / back-propagation twice before the update, rejected tensor-level calls on the live weights, rare long runs of 60-400 steps."
 }
 func (c11) Assumptions() []string {
 	return []string{
@@ -43,7 +43,7 @@ func (c11) Assumptions() []string {
 }
 func (c11) Extra() map[string]any {
 	e := baseExtra()
-	e["fault_kinds"] = []string{"step-omission", "step-duplication", "reorder", "invalid-call"}
+	e["fault_kinds"] = []string{"step-omission", "step-duplication (second Update; forward and back-propagation twice)", "reorder", "invalid-call (Update(nil), rejected tensor-level calls on the live weights)", "pointer-swap (tied parameters, restore of the initial tensor objects)"}
 	return e
 }
 
